@@ -481,3 +481,47 @@ def maybe_init_blocks(body, l):
                 init_in[s] = new
                 work.append(s)
     return init_in, at_term
+
+
+def sccs_iter(succ):
+    """iterative Tarjan over a dict node -> list of successors (large graphs)"""
+    index, low, onst, st, out = {}, {}, set(), [], []
+    counter = 0
+    for root_ in succ:
+        if root_ in index:
+            continue
+        work = [(root_, iter(succ.get(root_, ())))]
+        index[root_] = low[root_] = counter
+        counter += 1
+        st.append(root_)
+        onst.add(root_)
+        while work:
+            v, itr = work[-1]
+            advanced = False
+            for w in itr:
+                if w not in index:
+                    index[w] = low[w] = counter
+                    counter += 1
+                    st.append(w)
+                    onst.add(w)
+                    work.append((w, iter(succ.get(w, ()))))
+                    advanced = True
+                    break
+                elif w in onst:
+                    low[v] = min(low[v], index[w])
+            if advanced:
+                continue
+            work.pop()
+            if work:
+                u = work[-1][0]
+                low[u] = min(low[u], low[v])
+            if low[v] == index[v]:
+                comp = []
+                while True:
+                    w = st.pop()
+                    onst.discard(w)
+                    comp.append(w)
+                    if w == v:
+                        break
+                out.append(comp)
+    return out
